@@ -274,6 +274,7 @@ def merge_xml(xml_a, xml_b):
 
 
 _RUNNERS = {}
+COMPILES = [0]
 
 
 def _setup():
@@ -325,6 +326,7 @@ class Runner:
 
     self._fn[key] = jax.jit(f)
     self.compiles += 1
+    COMPILES[0] += 1
     return self._fn[key]
 
   def run(self, pipe, nsteps, grav, q, qd, ctrl):
@@ -370,14 +372,14 @@ def eval_transform(case):
   king2 = king.copy(); king2[:, 3:7] *= np.where(s == 0, 1.0, s)
   if not np.allclose(ekin, king2, atol=TOL_KIN * (1 + np.abs(ekin).max()), rtol=0):
     i = int(np.argmax(np.abs(ekin - king2).max(axis=1)))
-    return dict(key=f'transform:kinematics:{r.types[i]}',
+    return dict(key='transform:kinematics',
                 what=f'kinematics.forward on the transformed coordinates differs from g o forward at link {i} '
                      f'({r.types}): expected {ekin[i].tolist()} got {king2[i].tolist()}', link=i), info
   if mis is not None:
     what = (f'{pipe}: stepping the transformed scene differs from transforming the stepped scene at step '
             f'{mis["step"]}, field {mis["field"]}{mis["index"]}: expected {mis["expected"]!r} got {mis["got"]!r} '
             f'(|err| {mis["err"]:.3e}, allowed {mis["tol"] * mis["scale"]:.1e}); link_types {r.types}')
-    return dict(key=f'transform:{pipe}:{mis["field"]}', what=what, mismatch=mis), info
+    return dict(key=f'transform:{pipe}', what=what, mismatch=mis), info
   return None, info
 
 
@@ -403,7 +405,7 @@ def eval_perm(case):
     what = (f'{pipe}: document with permuted siblings (order {order}) does not give the permuted per-link results '
             f'at step {mis["step"]}, field {mis["field"]}{mis["index"]}: expected {mis["expected"]!r} got '
             f'{mis["got"]!r} (|err| {mis["err"]:.3e}); link_types {r.types}')
-    return dict(key=f'perm:{pipe}:{mis["field"]}', what=what, mismatch=mis), info
+    return dict(key=f'perm:{pipe}', what=what, mismatch=mis), info
   return None, info
 
 
@@ -427,7 +429,11 @@ def eval_merge(case):
     what = (f'{pipe}: part {part} of a merged document does not evolve as alone at step {mis["step"]}, field '
             f'{mis["field"]}{mis["index"]}: alone {mis["expected"]!r} merged {mis["got"]!r} (|err| {mis["err"]:.3e}); '
             f'link_types {ra.types}+{rb.types}, limits: A {ra.sys.dof.limit is not None} B {rb.sys.dof.limit is not None}')
-    return dict(key=f'merge:{pipe}:{mis["field"]}', what=what, mismatch=mis), info
+    la, lb = ra.sys.dof.limit is not None, rb.sys.dof.limit is not None
+    # circumstance of defect D4 (positional/joints.py pad_x_dof): a part without any joint limit
+    # (`dof.limit is None`) merged with a part that has one
+    key = f'merge:{pipe}:limit-none-part' if la != lb else f'merge:{pipe}'
+    return dict(key=key, what=what, mismatch=mis), info
   return None, info
 
 
@@ -569,7 +575,7 @@ def unit(args):
   seed, salt, pair, pipe, nsteps, n_states, repo = args
   if repo not in sys.path[:1]:
     sys.path.insert(0, repo)
-  t0 = time.time()
+  t0, c0 = time.time(), COMPILES[0]
   rng, opts, docs = gen_pair(seed, salt, pair, n_states)
   res = dict(pair=pair, pipe=pipe, failures=[], lean=[], stats=dict(
       evals=0, diverged=dict(transform=0, perm=0, merge=0), cases=dict(transform=0, perm=0, merge=0),
@@ -627,7 +633,7 @@ def unit(args):
   st['diverged']['merge'] += int(info['diverged']); st['worst']['merge'] = max(st['worst']['merge'], info['worst'])
   if f is not None:
     res['failures'].append((case, f))
-  st['compiles'] = sum(r.compiles for r in _RUNNERS.values())
+  st['compiles'] = COMPILES[0] - c0
   st['wall'] = time.time() - t0
   return res
 
